@@ -34,6 +34,8 @@ def vocabulary():
 
 def run(ctx):
     prog = ctx.prog
+    _PROG[:] = [prog]
+    _RECOGNISED.clear()
     cg = callgraph(ctx)
     fe = facts.FactsEngine(prog, cg)
     lg = fe.lg
@@ -54,7 +56,7 @@ def run(ctx):
                                 "this": {"k": "ref", "decl": "param:" + pname}, "args": [], "type": "bool"})
         dirty = ("a", "this.dirty_")
         # the count read: given() inlined or the member
-        G = ("a", "(this.given_ != 0)")
+        G = Not(("a", "(this.given_ == 0)"))
         writes = []
         for bid, i, e in uv.roots():
             if bid not in IN:
@@ -105,7 +107,7 @@ def run(ctx):
                 for n, exc, e in C04.raise_nodes(uv, b):
                     nraise += 1
                     ctx.check(exc == C04.ALLOWED, "R11.2", uv, "rejection-type#%d" % C04.site_ordinal(uv, b), "a toggle rejection raises %s instead of the user-input error" % exc, (uv, e.get("ln")))
-        ctx.need("R11.2", "rejections in toggle::update_value", nraise, 4)
+        ctx.need("R11.2", "rejections in toggle::update_value", nraise, 3)  # value, reversal not allowed, conflict (one site or one per direction)
 
     # ---- R11.3
     tm = one(ctx, "R11.3", NS + "toggle::matches")
@@ -231,7 +233,13 @@ def run(ctx):
         # any transformation of the word before comparing (case folding, trimming) = not the closed vocabulary
         mutated = False
         for bid, i, e in pe.roots():
+            inside = set()
             for n in walk(e["expr"]):
+                if isinstance(n, dict) and fmt(n) in _RECOGNISED:
+                    inside |= {id(y) for y in walk(n)}
+            for n in walk(e["expr"]):
+                if id(n) in inside:
+                    continue  # part of a membership test over a constant table whose literals were checked above
                 if n.get("k") == "call" and not n.get("op") and (n.get("name") or "") != "nitro::except::raise":
                     nm = short(n.get("name") or "")
                     if nm in ("size", "length", "empty", "begin", "end", "cbegin", "cend", "c_str", "data") and not n.get("args"):
@@ -323,12 +331,117 @@ def _guard_literals(fn, ret_bid, pname):
                     if tl is not None:
                         lits.update(tl)
                         continue
+                ml = _membership_literals(_PROG[0], ir.unwrap(t["cond"]), pname) if _PROG else None
+                if ml is not None:
+                    lits.update(ml)
+                    _RECOGNISED.add(fmt(ir.unwrap(t["cond"])))
+                    continue
                 return None
             elif lab == "next" and not fn.elems(p) and False:
                 st.append(p)
             else:
                 return None
     return lits
+
+
+_PROG = []
+_RECOGNISED = set()  # renderings of membership tests over constant tables that _guard_literals has resolved
+
+
+def _table_of(a, b):
+    """the constant table T when (a, b) is (std::begin(T), std::end(T)) / (T, T + N) / (begin(T), end(T)); else None"""
+    a, b = ir.unwrap(a), ir.unwrap(b)
+
+    def tab(x, which):
+        x = ir.unwrap(x)
+        while isinstance(x, dict) and x.get("k") == "cast":
+            x = ir.unwrap(x["e"])
+        if isinstance(x, dict) and x.get("k") == "call" and short(x.get("name") or "") in (which, "c" + which) and len(x.get("args", [])) == 1:
+            x = ir.unwrap(x["args"][0])
+            while isinstance(x, dict) and x.get("k") == "cast":
+                x = ir.unwrap(x["e"])
+            return x
+        if isinstance(x, dict) and x.get("k") == "call" and short(x.get("name") or "") in (which, "c" + which) and x.get("this") is not None and not x.get("args"):
+            return ir.unwrap(x["this"])
+        return None
+    ta, tb = tab(a, "begin"), tab(b, "end")
+    if ta is None and isinstance(a, dict) and a.get("k") == "ref" and a.get("const_init") is not None:
+        bo = ir.as_binop(b)
+        if bo and bo[0] == "+" and fmt(ir.unwrap(bo[1])) == fmt(a):
+            n = ir.unwrap(bo[2])
+            ci = ir.unwrap(a["const_init"])
+            if isinstance(n, dict) and n.get("k") == "lit" and isinstance(ci, dict) and n.get("v") == len(ci.get("elems", [])):
+                ta = tb = a
+    if not (isinstance(ta, dict) and isinstance(tb, dict) and ta.get("k") == "ref" and ta.get("const_init") is not None and ta.get("decl") == tb.get("decl")):
+        return None
+    ci = ir.unwrap(ta["const_init"])
+    if not (isinstance(ci, dict) and ci.get("k") == "init_list"):
+        return None
+    out = set()
+    for el in ci.get("elems", []):
+        el = ir.unwrap(el)
+        while isinstance(el, dict) and el.get("k") in ("cast", "construct") and (el.get("e") is not None or len(el.get("args", [])) == 1):
+            el = ir.unwrap(el.get("e") if el.get("e") is not None else el["args"][0])
+        if not (isinstance(el, dict) and el.get("k") == "lit" and el.get("t") == "str"):
+            return None
+        out.add(el["v"])
+    return out
+
+
+def _membership_literals(prog, c, pname, depth=0):
+    names = set(pname) if isinstance(pname, (set, frozenset)) else {pname}
+    """`std::any_of(begin(T), end(T), [&](w) { return pname == w; })`, `std::find(begin(T), end(T), pname) != end(T)`, or a call
+    of a /repo helper whose whole body is one of these over its own parameters: the literals of the constant table T"""
+    if not isinstance(c, dict) or depth > 2:
+        return None
+    while c.get("k") == "cast":
+        c = ir.unwrap(c["e"])
+    bo = ir.as_binop(c)
+    if bo and bo[0] == "!=":
+        for x, y in ((bo[1], bo[2]), (bo[2], bo[1])):
+            x, y = ir.unwrap(x), ir.unwrap(y)
+            if isinstance(x, dict) and x.get("k") == "call" and (x.get("name") or "") == "std::find" and len(x.get("args", [])) == 3 and fmt(ir.unwrap(x["args"][2])) in names \
+                    and fmt(ir.unwrap(x["args"][1])) == fmt(y):
+                return _table_of(x["args"][0], x["args"][1])
+        return None
+    if c.get("k") != "call":
+        return None
+    nm = c.get("name") or ""
+    args = c.get("args", [])
+    if nm == "std::any_of" and len(args) == 3:
+        lam = ir.unwrap(args[2])
+        if not (isinstance(lam, dict) and lam.get("k") == "lambda"):
+            return None
+        body = prog.fn((lam.get("bodies") or [lam.get("id")])[0])
+        if body is None or not body.has_cfg or len(body.params) != 1:
+            return None
+        rs = [ir.unwrap(e["expr"].get("e")) for _, _, e in body.roots() if e["expr"].get("k") == "return"]
+        if len(rs) != 1 or len(list(body.roots())) != 1:
+            return None
+        b2 = ir.as_binop(rs[0])
+        if not (b2 and b2[0] == "=="):
+            return None
+        sides = {fmt(ir.unwrap(b2[1])), fmt(ir.unwrap(b2[2]))}
+        if len(sides) != 2 or body.params[0]["name"] not in sides or not (sides - {body.params[0]["name"]}) <= names:
+            return None
+        return _table_of(args[0], args[1])
+    # a helper of the repository: substitute its parameters
+    h = prog.fn(c.get("callee")) if c.get("callee") else None
+    if h is None or not h.has_cfg or not h.file.startswith("/repo/") or len(h.params) != len(args):
+        return None
+    rs = [e["expr"].get("e") for _, _, e in h.roots() if e["expr"].get("k") == "return"]
+    if len(rs) != 1 or len(list(h.roots())) != 1:
+        return None
+    env = {"this": None, "params": {p0["name"]: a for p0, a in zip(h.params, args)}}
+    inner_name = None
+    for p0, a in zip(h.params, args):
+        if fmt(ir.unwrap(a)) in names:
+            inner_name = p0["name"]
+    if inner_name is None:
+        return None
+    body = logic.subst(rs[0], env)
+    # inside the helper the word is called inner_name (also in the closure that captures it)
+    return _membership_literals(prog, ir.unwrap(body), names | {inner_name}, depth + 1)
 
 
 def _table_literals(fn, bid, l, r, pname):
